@@ -214,6 +214,9 @@ class Simplifier(walkers.dag.DagWalker):
                             and variable.variable() in vars
                             and variable.variable() not in value_free_vars
                             and value_free_vars.isdisjoint(self._bound_variables(others))
+                            # the value must be a legal value of the variable (a term of a
+                            # supertype cannot replace a variable of a subtype)
+                            and variable.type.is_compatible(value.type)
                         ):
                             check_equality_simplification = True
                             new_arg = self.manager.And(
